@@ -11,7 +11,7 @@ RULE = ("the C05 kernel calls and the C06 API histories run in harness/c, where 
         "the working copy of the hasher is itself flush against a guard page, and every assembly routine (System V and Windows-GNU) is "
         "called through a trampoline that plants sentinels in all callee-saved registers of its ABI and checks them, rsp, DF and the "
         "MXCSR control bits on return; the model predicts plain hex output, so any CANARY / REGS / FAULT / MISMATCH / MUTATED / SAN "
-        "flag is a difference; `CK align` repeats the assembly kernel calls with the stack pointer at each of the four 16-byte positions of a 64-byte line; `CK hmanysep` gives every hash_many input its own guarded buffer (not adjacent to the next input); CK dirty 1|2 adds garbage in the unused upper bits of narrow arguments (thorough); thorough also runs "
+        "flag is a difference; `CK align` repeats the assembly kernel calls with the stack pointer at each of the four 16-byte positions of a 64-byte line; `CK hmanysep` gives every hash_many input its own guarded buffer (not adjacent to the next input); CK dirty 1|2 adds garbage in the unused upper bits of narrow arguments of the Windows-GNU kernels (registers and stack slots); thorough also runs "
         "the ASan+UBSan build; non-trivial = every kernel call / API history; distinct = distinct script")
 ASSUMPTIONS = ["Miri cannot execute SIMD intrinsics or FFI: the unsafe Rust kernels are covered by the output canaries of harness/rs K ops only",
                "memory and register behaviour is observed on the inputs run, not proved"]
@@ -43,6 +43,7 @@ def stages(tier, seed, witness_search=False):
     st = [LineStage("c-kernels-guarded", kscripts, impl="c"), LineStage("c-api-guarded", api, impl="c"),
           LineStage("c-hash-many-separate-inputs", sep, impl="c", max_minimise=40),
           LineStage("c-asm-stack-alignments", aligned, impl="c"),
+          LineStage("c-win-dirty-narrow-args", c05.win_dirty_scripts(rng, 20 if tier == "quick" else 600), impl="c"),
           LineStage("rs-kernels-canary", [Script([o], tags=("K",)) for o in rs_ops], features=("pure",))]
     # "write only the requested output plus the hasher object itself": no writable static storage besides the detection cache
     from . import c18
